@@ -504,40 +504,41 @@ def check_field_curvature(o, wavelengths, num_points):
 # Coddington trace along the chief ray (spheres and planes, refracting)
 # ----------------------------------------------------------------------------------------------
 def coddington(o, surfs, h, w):
-    """independent Coddington trace: returns (z_T, z_S) offsets of the tangential / sagittal foci from the chief ray's
-    image-surface point, or None when the lens is outside the method's scope"""
+    """independent Coddington trace in the frame of the chief ray (distances along the ray, positive downstream; indices
+    positive; curvature positive when the centre of curvature lies downstream), so refracting AND reflecting spheres and
+    planes are covered whatever the direction of travel.  Returns (z_T, z_S) offsets of the tangential / sagittal foci
+    from the chief ray's image-surface point, or None when the lens is outside the method's scope"""
     ch = tg(o, 0.0, h, 0.0, 0.0, w)
     pts = np.array([[ch['x'][k, 0], ch['y'][k, 0], ch['z'][k, 0]] for k in range(ch['x'].shape[0])])
     dirs = np.array([[ch['L'][k, 0], ch['M'][k, 0], ch['N'][k, 0]] for k in range(ch['x'].shape[0])])
     if not np.all(np.isfinite(pts[1:])) or not np.all(np.isfinite(dirs)):
         return None
     obj_inf = o.object_surface.is_infinite
-    s = t = None                      # object distances along the chief ray (negative = real object to the left)
-    if obj_inf:
-        inv_s = inv_t = 0.0
+    inv_sp = inv_tp = 0.0
     for k, sf in enumerate(surfs):
         idx = k + 1                   # record index of this surface
         sh = sf['shape']
-        if sh[0] not in ('plane', 'std') or (sh[0] == 'std' and sh[2] != 0.0) or sf['refl']:
+        if sh[0] not in ('plane', 'std') or (sh[0] == 'std' and sh[2] != 0.0):
             return None
         if sf['rx'] or sf['ry'] or sf['x'] or sf['y']:
             return None
-        n1, n2 = sf['n1'], sf['n2']
-        d_in = dirs[idx - 1] if idx - 1 >= 1 else dirs[0]
-        # incoming direction: direction recorded after the previous surface (record 0 holds the launch direction)
-        d_in = dirs[idx - 1]
+        n1, n2 = abs(sf['n1']), abs(sf['n2'])
+        d_in = dirs[idx - 1]          # direction recorded after the previous surface (record 0 holds the launch direction)
         d_out = dirs[idx]
         p = pts[idx]
         if sh[0] == 'plane' or not math.isfinite(sh[1]):
             nrm = np.array([0.0, 0.0, 1.0])
-            c = 0.0
+            c_eff = 0.0
         else:
             R = sh[1]
             centre = np.array([0.0, 0.0, sf['z'] + R])
-            nrm = (centre - p) / R            # unit normal pointing along +z at the vertex
-            c = 1.0 / R
+            nrm = (centre - p) / abs(R)           # unit normal pointing at the centre of curvature
+            c_eff = 1.0 / abs(R)
+        if float(np.dot(d_in, nrm)) < 0:          # orient the normal downstream; the centre is then upstream
+            nrm = -nrm
+            c_eff = -c_eff
         cosI = float(np.dot(d_in, nrm))
-        cosIp = float(np.dot(d_out, nrm))
+        cosIp = abs(float(np.dot(d_out, nrm)))
         if k == 0:
             if obj_inf:
                 inv_s = inv_t = 0.0
@@ -546,16 +547,19 @@ def coddington(o, surfs, h, w):
                 inv_s = inv_t = -1.0 / dist
         else:
             dist = float(np.dot(p - pts[idx - 1], d_in))          # path along the chief ray from the previous surface
-            # transfer: new object distance = previous image distance - path
             sp = (1.0 / inv_sp - dist) if inv_sp != 0 else math.inf
             tp = (1.0 / inv_tp - dist) if inv_tp != 0 else math.inf
-            inv_s = 0.0 if math.isinf(sp) else 1.0 / sp
-            inv_t = 0.0 if math.isinf(tp) else 1.0 / tp
-        power = c * (n2 * cosIp - n1 * cosI)
-        inv_sp = (power + n1 * inv_s) / n2
-        inv_tp = (power + n1 * cosI ** 2 * inv_t) / (n2 * cosIp ** 2)
-    # the last surface is the image surface (n2 = n1, plane: no power): the foci lie at distances 1/inv_sp, 1/inv_tp
-    # along the chief ray from its image-surface point
+            inv_s = 0.0 if math.isinf(sp) else (math.inf if sp == 0 else 1.0 / sp)
+            inv_t = 0.0 if math.isinf(tp) else (math.inf if tp == 0 else 1.0 / tp)
+        if sf['refl']:
+            inv_sp = inv_s - 2.0 * c_eff * cosI
+            inv_tp = inv_t - 2.0 * c_eff / cosI
+        else:
+            power = c_eff * (n2 * cosIp - n1 * cosI)
+            inv_sp = (power + n1 * inv_s) / n2
+            inv_tp = (power + n1 * cosI ** 2 * inv_t) / (n2 * cosIp ** 2)
+    # the last surface is the image surface (no power): the foci lie at distances 1/inv_sp, 1/inv_tp DOWNSTREAM along the
+    # chief ray from its image-surface point; their z offsets carry the sign of the ray's direction cosine
     N = dirs[-1][2]
     zS = (1.0 / inv_sp) * N if inv_sp != 0 else math.inf
     zT = (1.0 / inv_tp) * N if inv_tp != 0 else math.inf
@@ -670,10 +674,77 @@ def check_yybar(o):
 # ----------------------------------------------------------------------------------------------
 # lens generation and the whole property on one lens
 # ----------------------------------------------------------------------------------------------
-def c12_spec(rng, aspheres=None, finite=None, nsurf=None):
-    """rotationally symmetric refracting lens with at least two y fields; about a third get a curved image surface
+FIELD_CLASSES = ('ascending', 'reordered', 'all_negative', 'largest_negative', 'mixed_largest_positive')
+LENS_CLASSES = ('refracting', 'mirror1', 'mirror3', 'catadioptric1')
+
+
+def _field_class(spec, rng, fclass):
+    """field lists are SETS of field points: any order, any signs (the normalisation is by the largest magnitude)"""
+    import lensgen
+    ys = [f[0] for f in spec['fields']]
+    mf = max(abs(y) for y in ys)
+    if fclass == 'reordered':
+        lensgen.reorder_fields(spec, rng)
+    elif fclass == 'all_negative':
+        spec['fields'] = [[-abs(f[0])] + f[1:] for f in spec['fields']]
+    elif fclass == 'largest_negative':          # e.g. (0, 10, -20)
+        spec['fields'] = [[0.0, 0.0, 0.0, 0.0], [rng.uniform(0.3, 0.7) * mf, 0.0, 0.0, 0.0], [-mf, 0.0, 0.0, 0.0]]
+        if rng.random() < 0.5:
+            rng.shuffle(spec['fields'])
+    elif fclass == 'mixed_largest_positive':    # e.g. (-10, 0, 20)
+        spec['fields'] = [[-rng.uniform(0.3, 0.7) * mf, 0.0, 0.0, 0.0], [0.0, 0.0, 0.0, 0.0], [mf, 0.0, 0.0, 0.0]]
+    if fclass != 'ascending':
+        for f in spec['fields']:                # the vignetting interpolation is only defined for ascending non-negative fields
+            f[2] = f[3] = 0.0
+    spec['field_class'] = fclass
+    return spec
+
+
+def mirror_spec(rng, nmirrors, catadioptric=False):
+    """all-reflecting (or one lens + mirrors) system with an ODD number of mirrors: the light reaches the image travelling
+    towards -z (negative image-side thickness).  The image distance is solved by build() and then defocused."""
+    inf = float('inf')
+    surfs = [{'type': 'standard', 'radius': inf, 'thickness': rng.uniform(30.0, 70.0), 'is_stop': True, 'material': 'air'}]
+    if catadioptric:
+        surfs.append({'type': 'standard', 'radius': rng.uniform(150.0, 400.0) * rng.choice([-1, 1]), 'thickness': rng.uniform(3.0, 6.0),
+                      'is_stop': False, 'material': ['ideal', rng.uniform(1.45, 1.7), 0.0]})
+        surfs.append({'type': 'standard', 'radius': rng.uniform(150.0, 400.0) * rng.choice([-1, 1]), 'thickness': rng.uniform(20.0, 40.0),
+                      'is_stop': False, 'material': 'air'})
+    sign = 1
+    Rp = rng.uniform(150.0, 300.0)
+    surfs.append({'type': 'standard', 'radius': -Rp, 'thickness': 0.0, 'material': 'mirror'})       # concave primary
+    sign = -sign
+    if nmirrors == 3:
+        d1 = rng.uniform(0.25, 0.35) * Rp
+        surfs[-1]['thickness'] = -d1
+        surfs.append({'type': 'standard', 'radius': rng.choice([inf, -rng.uniform(2.0, 4.0) * Rp, rng.uniform(2.0, 4.0) * Rp]),
+                      'thickness': rng.uniform(0.05, 0.11) * Rp, 'material': 'mirror'})
+        surfs.append({'type': 'standard', 'radius': rng.choice([inf, rng.uniform(3.0, 6.0) * Rp, -rng.uniform(3.0, 6.0) * Rp]),
+                      'thickness': 0.0, 'material': 'mirror'})
+    surfs[-1]['thickness'] = -0.4 * Rp                       # replaced by the image solve in build()
+    mf = rng.uniform(0.5, 3.0)
+    ws = sorted(rng.sample([0.4861, 0.55, 0.5876, 0.6563], rng.choice([1, 2])))
+    spec = {'object_thickness': inf, 'surfaces': surfs, 'aperture': ['EPD', rng.uniform(8.0, 20.0)], 'field_type': 'angle',
+            'fields': [[0.0, 0.0, 0.0, 0.0], [0.7 * mf, 0.0, 0.0, 0.0], [mf, 0.0, 0.0, 0.0]],
+            'wavelengths': [[w, j == 0] for j, w in enumerate(ws)], 'telecentric': False,
+            'image_solve_defocus': rng.uniform(0.5, 3.0) * rng.choice([-1, 1]), 'has_asphere': False,
+            'lens_class': 'catadioptric1' if catadioptric else f'mirror{nmirrors}'}
+    return spec
+
+
+def c12_spec(rng, aspheres=None, finite=None, nsurf=None, lens_class=None, field_class=None):
+    """rotationally symmetric lens with at least two y fields.  Classes (drawn at random unless given):
+    lens_class in LENS_CLASSES (refracting; 1 or 3 mirrors; one lens + one mirror), field_class in FIELD_CLASSES
+    (field lists are sets: any order and sign).  About a third of the refracting lenses get a curved image surface
     (spec['image_radius'], applied by build())"""
     import lensgen
+    if lens_class is None:
+        lens_class = rng.choices(LENS_CLASSES, weights=[70, 12, 9, 9])[0]
+    if field_class is None:
+        field_class = rng.choices(FIELD_CLASSES, weights=[45, 15, 15, 15, 10])[0]
+    if lens_class != 'refracting':
+        spec = mirror_spec(rng, 3 if lens_class == 'mirror3' else 1, catadioptric=(lens_class == 'catadioptric1'))
+        return _field_class(spec, rng, field_class)
     asph = (rng.random() < 0.3) if aspheres is None else aspheres
     allow = ['plane', 'standard', 'conic'] + (['even_asphere'] if asph else [])
     spec = lensgen.gen_spec(rng, nsurf=nsurf or rng.choice([2, 3, 3, 4, 4, 5, 6]), allow=allow, mirrors=False, decenter=False,
@@ -686,7 +757,8 @@ def c12_spec(rng, aspheres=None, finite=None, nsurf=None):
     spec['has_asphere'] = any(s.get('type') == 'even_asphere' for s in spec['surfaces'])
     if rng.random() < 0.35:
         spec['image_radius'] = rng.uniform(30.0, 150.0) * rng.choice([-1, 1])
-    return spec
+    spec['lens_class'] = 'refracting'
+    return _field_class(spec, rng, field_class)
 
 
 def build(spec):
@@ -694,6 +766,14 @@ def build(spec):
     o = lensgen.build(spec)
     if spec.get('image_radius'):
         o.set_radius(spec['image_radius'], o.surface_group.num_surfaces - 1)
+    if spec.get('image_solve_defocus') is not None:
+        o.image_solve()
+        k = o.surface_group.num_surfaces - 2
+        t = float(np.ravel(o.surface_group.get_thickness(k))[0])
+        o.set_thickness(t + spec['image_solve_defocus'], k)      # the foci are NOT on the image surface
+        r = tg(o, 0.0, 0.0, 0.0, 0.5, float(o.primary_wavelength))
+        if not np.isfinite(r['y'][-1, 0]):
+            raise ValueError('generated mirror system has no real image')
     return o
 
 
